@@ -304,7 +304,7 @@ def worker(w, cfg):
 
 def configs(tier):
     cf = []
-    Lmax = 5 if tier == "quick" else 8
+    Lmax = 5 if tier == "quick" else 12
     for L in range(1, Lmax + 1):
         for meth in (None, "nearest", "ffill", "bfill"):
             for has_b in (False, True):
@@ -320,7 +320,7 @@ def configs(tier):
         for c in cf:
             for which in ("sum", "mean", "full"):
                 for dim in ("time", "band"):
-                    if (which, dim) != (c["which"], c["dim"]) and c["L"] <= 6:
+                    if (which, dim) != (c["which"], c["dim"]) and c["L"] <= 5:
                         extra.append(dict(c, which=which, dim=dim))
         cf += extra
     return cf
@@ -357,7 +357,7 @@ def main(tier, seed, nproc=None):
                        "pandas get_indexer: position if locatable else -1, never KeyError (validated against pandas each run); "
                        "nearest ties excluded", "xarray slicing/assign_attrs/reduce/expand_dims recorded, not executed "
                        "(NaN-skipping of np.nansum/np.nanmean is numpy's)"]
-    chk.bounds = {"axis length": f"1..{5 if tier == 'quick' else 8}", "n": "symbolic 1..L+1 or None", "begin/end": "symbolic labels "
+    chk.bounds = {"axis length": f"1..{5 if tier == 'quick' else 12}", "n": "symbolic 1..L+1 or None", "begin/end": "symbolic labels "
                   "(on and off the axis) or None", "method": "None / nearest / ffill / bfill", "variant/dim": "sum, mean, full on time and "
                   "non-time dimension (rotated in quick, all combinations in thorough)"}
     chk.outside = ["axes longer than the bound", "unsorted or duplicate labels", "numerical result of the reduction itself"]
